@@ -180,6 +180,12 @@ def handle_quic_packet(packet: Packet, keylog, quic_sessions: list[QuicSession],
 
 def run():
     """Starts the program"""
+    # start from a clean state if run() is called more than once in a process
+    server_ports[:] = [443, 44330]
+    keylog.clear()
+    sessions.clear()
+    quic_sessions.clear()
+
     args = arg_parser_init()
     keep_original_ports = args.keep_original_ports
     portmap = get_port_map(args)
